@@ -23,10 +23,12 @@ def _stop(failures):
 USES_THEORY = False
 
 
-def signature(pr, a):
+def signature(pr, a, ps=None):
     """classifies a failing (problem, action) by a known cause, so that known findings are matched by
     the specific input shape and every other failure is still reported"""
     fve = pr.environment.free_vars_oracle
+    if ps is not None and SC.static_conflict_after_grounding(pr, a, ps):
+        return SC.STATIC_TAG
     for e in a.effects:
         if e.is_forall() and (e.is_increase() or e.is_decrease()):
             c = e.condition.simplify()
@@ -78,7 +80,7 @@ def bounded(tier, seed):
                     nontrivial.add(key)
                 if (want is None) != (got is None):
                     failures.append({"what": f"seed {s}: apply {'rejects' if got is None else 'accepts'} an action instance the semantics "
-                                             f"{'accepts' if got is None else 'rejects'} [{signature(pr, a)}]",
+                                             f"{'accepts' if got is None else 'rejects'} [{signature(pr, a, ps)}]",
                                      "concrete": SC.describe(pr, st, a, ps), "observed": None if got is None else str(SC.read_state(pr, got))})
                     break
                 if want is not None and not SC.same_state(SC.read_state(pr, got), want):
@@ -118,7 +120,7 @@ def bounded(tier, seed):
                 evals += 1
                 if got is None or not SC.same_state(SC.read_state(pr, got), nxt):
                     failures.append({"what": f"seed {s}: after a history of {step + 1} applications the simulator's state differs from the "
-                                             f"documented semantics [{signature(pr, a)}]",
+                                             f"documented semantics [{signature(pr, a, ps if got is None else None)}]",
                                      "concrete": SC.describe(pr, ref, a, ps) | {"history_length": step + 1},
                                      "observed": None if got is None else str(SC.read_state(pr, got))})
                     break
